@@ -43,6 +43,9 @@ func solverCmd(name string, timeoutMs int) solverSpec {
 func (x *Exec) buildQuery(prelude string, o *Obligation) string {
 	var sb strings.Builder
 	sb.WriteString(prelude)
+	for _, r := range o.Reveal {
+		sb.WriteString(x.reg.RevealAxiom(r))
+	}
 	for _, d := range o.Decls {
 		sb.WriteString(d)
 		sb.WriteString("\n")
